@@ -491,11 +491,23 @@ def ofOpt {α : Type} : Option α → R α
   | some a => .ok a
   | none => .panic
 
+/-- `u64 as i64` -/
+def wrapI64 (n : Nat) : Int := if (n : Int) ≤ I64_MAX then (n : Int) else (n : Int) - 18446744073709551616
+
+/-- hexadecimal digits of `convert_to_int`: `i64::from_str_radix(_, 16)`, and when that fails
+`u64::from_str_radix(_, 16).unwrap() as i64` (bit 63 set: the 64-bit pattern) -/
+def hexToI64 (r : Str) : R Int :=
+  match parseI64 16 r with
+  | some v => .ok v
+  | none => match parseU64 16 r with
+    | some n => .ok (wrapI64 n)
+    | none => .panic
+
 /-- `convert_to_int`: `0x`/`0X` prefix → radix 16, else decimal; `unwrap`. -/
 def convertToInt (s : Str) : R Int :=
   match s with
-  | '0' :: 'x' :: r => ofOpt (parseI64 16 r)
-  | '0' :: 'X' :: r => ofOpt (parseI64 16 r)
+  | '0' :: 'x' :: r => hexToI64 r
+  | '0' :: 'X' :: r => hexToI64 r
   | _ => ofOpt (parseI64 10 s)
 
 /-- `convert_to_uint`. -/
